@@ -300,7 +300,7 @@ def r7_4(ctx, R, mus):
         for f in adt["variants"][0]["fields"]:
             ctx.ob("R7.4", sp, "field-private:" + f["name"], f["vis"] not in ("pub", "crate"), "", "vis=" + f["vis"])
         for b in impl_fns_of(ctx, sp):
-            bad = reaches(ctx.facts, b, re.escape(ins.path) + "$", 4) or reaches(ctx.facts, b, re.escape(mark.path) + "$", 4)
+            bad = reaches(ctx.facts, b, re.escape(ins.path) + "$", 4) or reaches(ctx.facts, b, mark.path_regex, 4)
             ctx.ob("R7.4", b, "no-insert-into-queue", not bad, d_loc(b))
 
 
